@@ -120,6 +120,15 @@ CHECKS = {
          "point (load_pdx_file, load_file, load_directory, load_files) yields an equal database.",
     note="Trusted: vlib/models/dcdiff.py, pdxperturb.py (soundness rules for perturbed values), Hypothesis. Only classes present in the shipped examples are reached.",
     design="3/C11"),
+ "C14": dict(
+    technique="reference matcher and simulated ECU driven as a history against VariantMatcher.request_loop/evaluate; enumerated catalogue of candidate lists x ECU functions",
+    text="Bounded exploration: candidate lists of ECU/base variants built through XML (0..3 patterns, 1..3 matching parameters, shared and distinct "
+         "identification services, SNREF and SNPATHREF targets in structures and fields) x deterministic ECU response functions x cache on/off; the "
+         "reported variant must be the reference's first candidate with a fully matching pattern (or none), independent of caching; every yielded "
+         "request belongs to a candidate's identification service; with cache no request repeats. Complete enumeration of a fixed catalogue of 11 "
+         "variants in all ordered lists of length <= 2 (3 in thorough) x 50 ECU functions.",
+    note="Trusted: vlib/models/matcher.py (reference codec/matcher, no odxtools import), Hypothesis. Ambiguous ECU answers (trailing bytes, partial field items) are not judged.",
+    design="3/C14"),
  "C15": dict(
     technique="reference model of communication-parameter resolution over generated hierarchies and comparam subsets/specs",
     text="Bounded exploration: C09-style hierarchies with a generated COMPARAM-SUBSET/-SPEC, COMPARAM-REFs with and without protocol qualifier, simple "
